@@ -10,6 +10,16 @@ TRUST = ("Trusted: Lean 4.33 kernel (axioms ⊆ {propext, Classical.choice, Quot
 
 # id -> (category, text, note, technique, design_ref)
 CLAIMS = {
+ "C10": ("proof",
+         "Lean theorems over the validated whole-pipeline model for extends chains of ANY length: the root pass hands the base template exactly the list of definitions of every block, most derived first (C10_registerBlocks_spec); an extending template renders none of its own top-level nodes (C10_child_text_no_output); every block node, wherever it stands, renders the head of that list, an empty override renders nothing (C10_block_renders_most_derived, C10_empty_override); parent() renders the next definition with the same variables and restores the level, error when there is none (C10_parent); nothing but the root pass changes the block table (C10_frame); C10_substitution ties renderTop of the most derived template to the base rendered under the chain's table. "
+         "Tie: every assignment of omit/define/blank/parent() for ≤ 3 levels × ≤ 2 blocks and sampled chains to 5 levels, rendered by the real engine, by the Lean pipeline from source, and by an independent substitution spec written in the harness.",
+         TRUST + "The deep claim 'every block at any nesting depth sees the table' follows compositionally from the frame lemma; it is not stated as one closed equation.",
+         "Lean 4 proof (induction on chain length and fuel, frame lemma over the mutual recursion) + differential correspondence + independent spec oracle", "DESIGN.md §4 C10"),
+ "C12": ("proof",
+         "Lean theorems over the validated whole-pipeline model: positional binding with defaults evaluated in the caller's state, null for the rest, extra arguments ignored (C12_binding and corollaries); the body runs in a context whose own variables are exactly the parameters with the caller's scope as parent chain and the caller's context is restored exactly (C12_shadow_and_isolation); a parameter reads as its bound value whatever macros are visible (C12_param_read); direct, _self, import, from-import and aliased calls evaluate to the same callable (C12_routes_agree, C12_import_and_from_agree); every top-level macro of the defining template is callable from a macro body however it was reached (C12_siblings). "
+         "Tie: all signatures of arity ≤ 3 × default subsets × argument counts × five routes (and sampled placements in loops, blocks, macros) on the real engine, the Lean pipeline and an independent binding spec.",
+         TRUST + "Not proved: agreement of the two macro declaration parsers (the combined-token path is unreachable from the tokenizer).",
+         "Lean 4 proof (route-by-route evaluation lemmas, binding induction) + differential correspondence + independent spec oracle", "DESIGN.md §4 C12"),
  "C01": ("proof",
          "Lean proof for ALL histories, all pool behaviours (Get picks any pooled object or allocates; gc drops any subset) and 1..n engines: the pooled machine, parameterised by facts about which fields every acquire path resets and every release clears, produces exactly the outputs of the pool-free machine (C01_history_independence), a render leaves every cache and cached object unchanged (C01_render_preserves_cache), no cached object is ever pooled, no double release, no stale field is ever read. "
          "Tie: histories on real engines (register, parse-only, ok/failing renders, cache toggles, GC, several engines) compared per render with a fresh engine, with a pristine child process and with the Lean model under LIFO/FIFO/random pool oracles.",
